@@ -562,6 +562,41 @@ def r11_observation_models_built_as_given(ctx):
         ctx.ok("C12.R11", f, gets[0], f"`{var}` is only defaulted when it is None ({n_def} re-binding)", construct="observation models as given")
 
 
+def r12_export_adds_but_never_rewrites_parameters(ctx):
+    """What `to_dict` adds to the exported parameters are derived values under their own names (`mixing_matrix`); the parameters themselves are
+    exported as the model holds them - an export that re-writes some of them (re-ordered clusters, rounded values) and not the others saves a
+    model that is not the one in memory."""
+    ctx.rule("C12.R12", "the exporters (`to_dict`) only add derived values to the exported parameters, they never re-write a parameter", 2)
+    ADDED_OK = {"mixing_matrix"}
+    n = 0
+    for f in ctx.ix.iter_funcs():
+        if not f.mod.startswith("leaspy.models") or f.name != "to_dict":
+            continue
+        n += 1
+        ctx.analysed(f)
+        bad = False
+        for st in statements(f.node):
+            loops = []
+            for t in store_targets(st):
+                if isinstance(t, ast.Subscript) and isinstance(t.value, ast.Subscript) and isinstance(t.value.slice, ast.Constant) and t.value.slice.value == "parameters":
+                    key = t.slice
+                    if isinstance(key, ast.Constant) and key.value in ADDED_OK:
+                        ctx.ok("C12.R12", f, st, f"derived value `{key.value}` added to the export", construct=f"{f.qual}: {key.value}")
+                    else:
+                        bad = True
+                        ctx.violation("C12.R12", f, st, f"`{U(st)[:80]}` re-writes exported parameter(s) (`{U(key)[:30]}`): the file no longer holds the parameters of the model in memory "
+                                      "(e.g. clusters re-ordered for some parameters and not for the others)", construct=f"{f.qual}: parameter rewritten")
+            for c in header_walk(st):
+                if isinstance(c, ast.Call) and isinstance(c.func, ast.Attribute) and c.func.attr in ("update", "pop", "setdefault") and isinstance(c.func.value, ast.Subscript) \
+                        and isinstance(c.func.value.slice, ast.Constant) and c.func.value.slice.value == "parameters":
+                    bad = True
+                    ctx.violation("C12.R12", f, c, f"`{U(c)[:80]}` modifies the exported parameters", construct=f"{f.qual}: parameter rewritten")
+        if not bad:
+            ctx.ok("C12.R12", f, f.node, "no parameter re-written by the export", construct=f"{f.qual}: nothing rewritten")
+    if n < 2:
+        ctx.unknown("C12.R12", ("leaspy.models.base", "BaseModel.to_dict"), None, f"only {n} `to_dict` found", construct="exporters")
+
+
 def rules(ctx):
     r7_trajectories_from_the_current_state(ctx)
     r6_files_read_afresh(ctx)
@@ -577,6 +612,7 @@ def rules(ctx):
     r9_stateless_parameters_not_narrowed(ctx)
     r10_load_hands_over_every_parameter(ctx)
     r11_observation_models_built_as_given(ctx)
+    r12_export_adds_but_never_rewrites_parameters(ctx)
     ctx.trust("json round trip of Python lists / numbers; tensor.tolist(); tensor.view")
     ctx.note("the two `assert (cond, msg)` statements at the end of StatefulModel.load_parameters assert a non-empty tuple (always true): the comparison of provided derived values is dead code (not part of the statement)")
 
